@@ -75,8 +75,17 @@ TraceReset ==
 
 MemExactStep(e) == LET after == ProjStore(e.st) IN e.mem - pmem = DeltaOf(st, after, Changed(st, after))
 
+\* the volatile-key index (the expiry sampler and the volatile-* eviction policies only ever look there) lists
+\* every key, of every database, that carries a deadline
+VolComplete(e) ==
+    ("vol" \in DOMAIN e /\ ~(e.r.t \in {"panic", "hang"})) =>
+        LET after == ProjStore(e.st) IN
+        \A x \in DOMAIN after :
+            after[x].d # NoD => \E i \in DOMAIN e.vol : e.vol[i].db = x[1] /\ e.vol[i].key = x[2]
+
 TraceCmd ==
     /\ l <= Len(Trace) /\ Trace[l].ev = "cmd"
+    /\ VolComplete(Trace[l])
     /\ LET e  == Trace[l]
            Ds == IF Matches(e, {}) THEN {{}} ELSE Explaining(e)
            mi == CheckMem /\ ~(e.r.t \in {"panic", "hang"}) /\ ~MemExactStep(e)     \* explained only by MemInPlace
@@ -118,7 +127,9 @@ TraceSelect ==
 TraceStuck ==
     /\ l <= Len(Trace) /\ Trace[l].ev = "cmd"
     /\ LET e == Trace[l] IN
-       /\ ((~Matches(e, {}) /\ Explaining(e) = {}) \/ ~(e.r.t \in {"panic", "hang"} \/ MemStepOK(e, e.cmd[1].s \in InPlaceOps)))
+       /\ ((~Matches(e, {}) /\ Explaining(e) = {}) \/ ~(e.r.t \in {"panic", "hang"} \/ MemStepOK(e, e.cmd[1].s \in InPlaceOps))
+              \/ ~VolComplete(e))
+       /\ (VolComplete(e) \/ PrintT(<<"MISMATCH-NOTE", "a key with a deadline is missing from the volatile-key index", e.vol>>))
        /\ PrintT(<<"MISMATCH-LINE", l>>)
        /\ PrintT(<<"MISMATCH-CMD", e.cmd>>)
        /\ PrintT(<<"MISMATCH-MODEL-REPLY", Outcome(e, {}).r>>)
